@@ -452,6 +452,10 @@ class Check(PropertyCheck):
             obs["D"] = self._hist_read(view, D); obs["D_want"] = assigned[1]
         return obs
 
+    def _isform_probe(self, hd):
+        """does the real getter take a request with these headers for an urlencoded form? (body x=1 under its own content type)"""
+        return len(self._req(headers=hd, content=b"x=1").urlencoded_form.fields) > 0
+
     @staticmethod
     def _text_seen_by_setter(r):
         """the existing body as _set_urlencoded_form reads it for its similar_to style: decoded after the content-type has been reset to the
@@ -560,7 +564,7 @@ class Check(PropertyCheck):
             text0 = self._text_seen_by_setter(r)
             r.urlencoded_form = r.urlencoded_form.fields
             return {"v0": v0, "text0": text0, "v1": [list(p) for p in r.urlencoded_form.fields], "ct2": r.headers.get("content-type"),
-                    "body_hex": hx(r.raw_content)}
+                    "body_hex": hx(r.raw_content), "isform": self._isform_probe(hd)}
         if k == "form":
             hd = [] if case["ct"] is None else [(b"content-type", case["ct"].encode())]
             r = self._req(headers=hd, content=b"" if case["body0"] is None else case["body0"].encode(case.get("benc") or "utf-8"))
@@ -570,7 +574,7 @@ class Check(PropertyCheck):
             b1 = r.raw_content
             r.urlencoded_form = r.urlencoded_form.fields
             return {"back": back, "body_hex": hx(b1), "back2": [list(p) for p in r.urlencoded_form.fields], "ct2": r.headers.get("content-type"),
-                    "text0": text0}
+                    "text0": text0, "isform": self._isform_probe(hd)}
         if k == "path":
             r = self._req(path=case["path0"].encode("utf8", "surrogateescape"))
             q0 = [list(p) for p in r.query.fields]
@@ -880,9 +884,10 @@ class Check(PropertyCheck):
         if k == "cookiehdr":
             return ["ckparse " + cps(h) for h in case["hdrs"]]
         if k == "setcookie":
-            return ["scfmt " + self._pairs_field([(n, v)] + [tuple(a) for a in attrs]) for n, v, attrs in case["cookies"]]
+            per = [self._pairs_field([(n, v)] + [tuple(a) for a in attrs]) for n, v, attrs in case["cookies"]]
+            return ["scfmt " + x for x in per] + [" ".join(["scset"] + per)]
         if k == "setcookiehdr":
-            return ["scparse " + cps(h) for h in case["hdrs"]]
+            return ["scparse " + cps(h) for h in case["hdrs"]] + [" ".join(["scview"] + [cps(h) for h in case["hdrs"]])]
         if k == "target":
             import urllib.parse
             from mitmproxy.net.http import url as nurl
@@ -898,7 +903,8 @@ class Check(PropertyCheck):
             r = self._req(headers=hd, content=body)
             similar = self._text_seen_by_setter(r)
             pairs = [tuple(p) for p in case["pairs"]] if k == "form" else list(r.urlencoded_form.fields)
-            return ["formenc %s %s" % (cps(urllib.parse.urlencode(pairs, False, errors="surrogateescape")), cps(similar))]
+            return ["formenc %s %s" % (cps(urllib.parse.urlencode(pairs, False, errors="surrogateescape")), cps(similar)),
+                    "formglue %s" % ("none" if case["ct"] is None else cps(case["ct"]))]
         if k in ("multipart", "mpbody"):
             if k == "mpbody":
                 b = self._boundary(case["ct"])
@@ -931,19 +937,25 @@ class Check(PropertyCheck):
             # one header per cookie; what each header parses to (all cookies found in it, flattened with `|`)
             for hdr in obs["hdr"]:
                 out.append("%s %s" % (cps(hdr), self._sc_parsed(hdr)))
+            out.append("%s | %s" % (" ".join(cps(h) for h in obs["hdr"]) or "none", self._sc_view(obs["back"])))
             return out
         if k == "setcookiehdr":
-            return [self._sc_parsed(h) for h in case["hdrs"]]
+            return [self._sc_parsed(h) for h in case["hdrs"]] + [self._sc_view(obs["view"])]
         if k == "multipart":
             if obs["set"] != "ok": return ["raise"]
             return ["%s %s" % (obs["body_hex"], ",".join("%s=%s" % (a, b) for a, b in obs["back"]) or "-")]
         if k == "target":
             return [" ".join(cps(x) for x in obs["parts"]), cps(obs["path_pc"]), cps(obs["path_q"])]
         if k in ("form", "formwb"):
-            return [cps(unhx(obs["body_hex"]).decode("ascii"))]
+            return [cps(unhx(obs["body_hex"]).decode("ascii")),
+                    "%d %s" % (1 if obs["isform"] else 0, "none" if obs["ct2"] is None else cps(obs["ct2"]))]
         if k == "mpbody":
             return ["raise" if obs["dec"] == "ValueError" else (",".join("%s=%s" % (a, b) for a, b in obs["dec"]) or "-")]
         return None
+
+    def _sc_view(self, view):
+        """the Response.cookies view ([[name, value, attrs]…]) in the driver's rendering"""
+        return "|".join(self._pairs_field([(n, v)] + [tuple(a) for a in attrs]) for n, v, attrs in view) or "none"
 
     def _sc_parsed(self, hdr):
         cookies, _ = nck._read_set_cookie_pairs(hdr)
